@@ -18,9 +18,27 @@ ClsD    == <<"blk", "cmp">>
 \* tree E: assembly (axial bounds) > block (hex pitch)
 ParentE == <<0, 1>>
 ClsE    == <<"asm", "blk">>
+\* tree R: the smallest test reactor (reactor, core, spent fuel pool, assembly, block, 7 components)
+ParentR == <<0, 1, 1, 2, 4, 5, 5, 5, 5, 5, 5, 5>>
+ClsR    == <<"r", "core", "sfp", "asm", "blk", "cmp", "cmp", "cmp", "cmp", "cmp", "cmp", "cmp">>
 KeepsNone == {{}}
 
-McParOf   == [c \in {"asm", "blk", "cmp"} |-> Par]
+McParOf   == [c \in {"r", "core", "sfp", "asm", "blk", "cmp"} |-> Par]
+McAllCls  == {"r", "core", "sfp", "asm", "blk", "cmp"}
+McDbCls   == {"asm", "blk", "cmp"}      \* small instances: any detached root stands for the reactor
+RDbCls    == {"r"}
+RCopyCls  == {"asm"}
+\* the read-only family: public mutators that route through parameters (the adapter implements each name)
+McCallsOf == [c \in {"asm", "blk", "cmp"} |->
+                IF c = "cmp" THEN {"changeNDensByFactor", "setNumberDensities", "updateNumberDensities",
+                                   "clearNumberDensities", "setTemperature", "setDimension", "setMass", "addMass",
+                                   "setMasses", "setType", "p.update", "p[]=", "del p[]", "copyParamsFrom"}
+                ELSE IF c = "blk" THEN {"changeNDensByFactor", "setNumberDensity", "setNumberDensities",
+                                        "updateNumberDensities", "clearNumberDensities", "setMass", "addMass",
+                                        "setHeight", "setType", "adjustUEnrich", "del p[]", "copyParamsFrom"}
+                ELSE {"changeNDensByFactor", "setNumberDensity", "clearNumberDensities", "setType", "setMass",
+                      "calculateZCoords", "del p[]", "copyParamsFrom"}]
+NoCalls   == [c \in {} |-> {}]
 McGridCls == {"asm", "blk"}
 McMatCls  == {"cmp"}
 \* keep-sets: nothing; one parameter of one class; the same abstract parameter on two classes; mixed
@@ -28,7 +46,11 @@ KeepsSmall == {{}, {<<"cmp", "p">>}, {<<"blk", "q">>, <<"cmp", "q">>}}
 KeepsTwo   == {{}, {<<"blk", "q">>, <<"cmp", "q">>, <<"cmp", "p">>}}
 KeepsFull  == {{}, {<<"cmp", "p">>}, {<<"cmp", "q">>}, {<<"blk", "p">>}, {<<"blk", "q">>, <<"cmp", "q">>},
                {<<"asm", "p">>, <<"blk", "p">>, <<"cmp", "p">>}, {<<"asm", "q">>, <<"cmp", "p">>, <<"cmp", "q">>}}
-ActsAll    == {"Enter", "Exit", "Assign", "AssignRO", "SetCache", "SetGrid", "DeepCopy", "Pickle", "MakeReadOnly"}
+ActsAll    == {"Enter", "Exit", "Assign", "AssignRO", "SetCache", "SetGrid", "DeepCopy", "Pickle", "MakeReadOnly",
+               "CallRO", "WriteDb", "LoadDb", "LoadDbRO"}
+ActsRO     == {"MakeReadOnly", "AssignRO", "CallRO", "DeepCopy", "Assign"}
+ActsDb     == {"WriteDb", "LoadDb", "LoadDbRO", "DeepCopy", "Pickle", "Assign", "AssignRO"}
+ActsDbR    == {"WriteDb", "LoadDb", "LoadDbRO", "DeepCopy"}
 ActsParams == {"Enter", "Exit", "Assign"}
 ActsGrid   == {"Enter", "Exit", "SetGrid", "SetCache"}
 ActsAsBuilt == {"Enter", "Exit", "SetGrid", "Pickle"}
@@ -37,5 +59,10 @@ ActsCopy   == {"Enter", "Exit", "Assign", "AssignRO", "DeepCopy", "Pickle", "Mak
 Bound == TLCGet("level") <= MaxLevel
 \* the snapshots inside the frames are determined by the backups (BackupsAreSnapshots) and never read by Next
 View  == <<tree, pvars, cvars, gvars, [i \in 1..Len(frames) |-> <<frames[i].root, frames[i].keep>>], ro, svars, bad>>
+\* database family on the real reactor: parameter values of loaded objects are property C04's business
+ObsDb == [k \in {"parent", "cls", "sameSerialAs", "ro", "err"} |-> Obs[k]]
+VarsDb == [parent |-> Vars.parent, ro |-> Vars.ro, serial |-> Vars.serial, next |-> Vars.next, ident |-> Vars.ident,
+           db |-> [has |-> db.has, objs |-> db.objs, max |-> db.max, serial |-> Vars.db.serial]]
+EmitDb == PrintT(ToJson([lvl |-> TLCGet("level"), from |-> VarsDb, act |-> act', to |-> VarsDb', obs |-> ObsDb']))
 Emit  == PrintT(ToJson([lvl |-> TLCGet("level"), from |-> Vars, act |-> act', to |-> Vars', obs |-> Obs']))
 =====================================================================================================
